@@ -246,6 +246,17 @@ def layouts() -> List[Tuple[str, Any]]:
         src = "class C_{}:\n".format(k) + _fn("@icontract.require(lambda {}: {}, description={!r}{})".format(lam, e, d, ek), "self, " + fp, k, indent="    ")
         return src, "C_{}().f_{}".format(k, k)
 
+    @add("method-in-class-indented-by-a-tab")
+    def _(k, lam, e, d, ek, fp):
+        src = "class C_{}:\n".format(k) + _fn("@icontract.require(lambda {}: {}, description={!r}{})".format(lam, e, d, ek), "self, " + fp, k, indent="\t")
+        return src, "C_{}().f_{}".format(k, k)
+
+    @add("method-in-class-indented-by-tabs-multi-line")
+    def _(k, lam, e, d, ek, fp):
+        src = "class C_{}:\n\tclass Inner:\n".format(k) + _fn(
+            "@icontract.require(\n\tlambda {}: {},\n\tdescription={!r}{},\n)".format(lam, e, d, ek), "self, " + fp, k, indent="\t\t")
+        return src, "C_{}.Inner().f_{}".format(k, k)
+
     @add("staticmethod-in-dbc-class-multi-line")
     def _(k, lam, e, d, ek, fp):
         src = "class C_{}(icontract.DBC):\n".format(k) + _fn(
